@@ -238,6 +238,8 @@ def latest_cases(chk, drv, work):
         base = np.random.RandomState(it).normal(size=npts)
         cfile = os.path.join(work, 'c_%d.json' % it)
         write_constants(cfile, npts)
+        # (times stay below 10^6: beyond six digits the lexicographic maximum is not the newest file, observation F10)
+        aux_times = sorted(t for t in ({max(times) + 7, min(times) + 1, rng.choice(times) + 3, 5} - set(times)) if t < 10 ** 6)
 
         def prepare():
             comm = MPI.COMM_WORLD
@@ -247,6 +249,10 @@ def latest_cases(chk, drv, work):
             for t in times:
                 grid.getAllData()[:] = lu.expected_block(base + t, grid.getLayout(layname))
                 grid.writeH5Dataset(folder, t)
+            # a second family of checkpoints in the same folder under another name, some of them newer than every grid_* file
+            for t in aux_times:
+                grid.getAllData()[:] = lu.expected_block(2 * base - t, grid.getLayout(layname))
+                grid.writeH5Dataset(folder, t, 'aux')
             return [float(x[0]) for x in grid.eta_grid]
         # process grid is chosen by the code itself here (compute_2d_process_grid)
         w = lu.run_ranks(int(np.prod(PW)), prepare)
@@ -261,8 +267,14 @@ def latest_cases(chk, drv, work):
             kw = {} if want_time is None else {'timepoint': want_time}
             grid, constants, t = setupFromFile(folder, comm=comm, allocateSaveMemory=True, layout='v_parallel', **kw)
             L = grid.getLayout(grid.currentLayout)
-            return {'t': t, 'layout': grid.currentLayout, 'blk': np.array(grid.getAllData(), copy=True),
-                    'starts': [int(x) for x in L.starts], 'ends': [int(x) for x in L.ends]}
+            out = {'t': t, 'layout': grid.currentLayout, 'blk': np.array(grid.getAllData(), copy=True),
+                   'starts': [int(x) for x in L.starts], 'ends': [int(x) for x in L.ends]}
+            # the latest checkpoint of the OTHER family, by name (loadFromFile wants the grid in the layout of the file)
+            grid.setLayout(layname)
+            grid.loadFromFile(folder, None, 'aux')
+            L = grid.getLayout(grid.currentLayout)
+            out['aux'] = (np.array(grid.getAllData(), copy=True), tuple(L.dims_order), [int(x) for x in L.starts], [int(x) for x in L.ends])
+            return out
         r = lu.run_ranks(PR_n, restart)
         if not r.ok:
             chk.fail('C18:restart-crash', 'setupFromFile raised: ' + str(r.first_error())[:200], case)
@@ -278,6 +290,13 @@ def latest_cases(chk, drv, work):
                         loaded = t
                 chk.fail('C18:latest', 'the restart does not resume from the checkpoint with the largest (or the requested) time, bit for bit',
                          dict(case, rank=ri), expected={'t': exp_t}, actual={'t': o['t'], 'content_of_time': loaded, 'layout': o['layout']})
+                break
+        for ri, o in enumerate(r.values()):
+            blk, order, st, en = o['aux']
+            wa = np.transpose(2 * base - max(aux_times), order)[tuple(slice(a, b) for a, b in zip(st, en))]
+            if not same_bits(blk, np.ascontiguousarray(wa)):
+                chk.fail('C18:latest-by-name', 'loadFromFile(folder, None, "aux") does not load the latest checkpoint of that name',
+                         dict(case, rank=ri, aux_times=aux_times))
                 break
         # correspondence: names and latest
         mo = drv.call({'op': 'names', 'folder': folder, 'conv': 'grid', 'times': times})
@@ -475,14 +494,16 @@ def compare_with_model(chk, mo, folder, before_files, before_lines, case):
         chk.diff('model predicts ZeroDivisionError', case, True, False)
 
 
-def split_case(chk, drv, prog, du, work, S, N, M, ranks1, ranks2, ranks_ref, dt=2, tag=''):
+def split_case(chk, drv, prog, du, work, S, N, M, ranks1, ranks2, ranks_ref, dt=2, tag='', const_kw=None):
     """returns a failure dict or None; records correspondence diffs"""
-    cfile = os.path.join(work, 'const_dt%d.json' % dt)
+    const_kw = const_kw or {}
+    cfile = os.path.join(work, 'const_dt%d_%s.json' % (dt, '_'.join('%s%s' % kv for kv in sorted(const_kw.items())) or 'std'))
     if not os.path.exists(cfile):
-        du.write_constants(cfile, dt=dt)
-    uid = '%s_S%d_N%d_M%d_r%d%d%d' % (tag, S, N, M, ranks1, ranks2, ranks_ref)
+        du.write_constants(cfile, dt=dt, **const_kw)
+    uid = '%s_S%d_N%d_M%d_r%d%d%d%s' % (tag, S, N, M, ranks1, ranks2, ranks_ref, 'k' if const_kw else '')
     A, B = os.path.join(work, 'A' + uid), os.path.join(work, 'B' + uid)
-    case = {'saveStep': S, 'N': N, 'M': M, 'ranks_first': ranks1, 'ranks_restart': ranks2, 'ranks_unsplit': ranks_ref, 'dt': dt}
+    case = {'saveStep': S, 'N': N, 'M': M, 'ranks_first': ranks1, 'ranks_restart': ranks2, 'ranks_unsplit': ranks_ref, 'dt': dt,
+            'constants': const_kw}
     tE1, tE2 = N * dt, (N + M) * dt
     r = driver_run(du, ranks_ref, work, tE2, A, cfile, S)
     if r[0] != 'ok':
@@ -575,8 +596,11 @@ def clock_stop_case(chk, drv, prog, du, work, S, ranks):
 
 def driver_cases(chk, drv, prog, work, plan):
     import driver_util as du
-    for (S, N, M, r1, r2, rr) in plan:
-        f = split_case(chk, drv, prog, du, work, S, N, M, r1, r2, rr)
+    for k, (S, N, M, r1, r2, rr) in enumerate(plan):
+        # every second case with constants away from their defaults (an asymmetric velocity domain, shifted z and r domains): the
+        # restart must rebuild exactly the grids and spline spaces of the first run from the parameter file
+        kw = {'vMin': -6.0, 'vMax': 7.5, 'rMin': 0.2, 'zMin': 1.0} if k % 2 == 1 else None
+        f = split_case(chk, drv, prog, du, work, S, N, M, r1, r2, rr, const_kw=kw)
         if f is not None:
             chk.fail(f['signature'], f['what'], f['case'], f.get('expected'), f.get('actual'))
     return du
